@@ -260,6 +260,7 @@ func runC04(r *Run) int {
 			w.Sample(map[string]interface{}{"vector": s, "admissible_base": tset(exp.Base), "admissible_temporal": tset(exp.Temp)})
 		}
 	})
+	assembled2(r, "C04")
 	kf.report(r)
 	r.Extra("vectors_with_an_exact_half_tie", ties.Load())
 	if r.Counter("valid_vector_not_decoded") > 0 || r.Counter("score_panicked") > 0 {
@@ -381,6 +382,7 @@ func runC05(r *Run) int {
 		w.Count("group_absent_relation_checked")
 		checkEnv2(w, v.String(), &v, kf, st)
 	})
+	assembled2(r, "C05")
 	kf.report(r)
 	r.Extra("corner_coverage", map[string]int64{
 		"vectors_where_the_specification_equation_is_negative": st.negative.Load(),
@@ -500,4 +502,47 @@ func observe2SevFirst(w *W, level int, s string) (x obs2) {
 	}
 	x.ok = true
 	return
+}
+
+// assembled2 checks v2 objects put together from separately decoded parts (the embedded decoder of a
+// constructor result used directly; an embedded pointer replaced by a decoded object; a literal around one):
+// with the upper group absent, the upper level's score must be the lower level's score.
+func assembled2(r *Run, prop string) {
+	hows := []string{"constructor result whose embedded decoder decoded the vector", "constructor result with its embedded pointer replaced by a decoded object", "struct literal around a decoded object"}
+	r.Parallel(nBase2*101, 32, func(w *W, idx int) {
+		bi, ti := idx/101, idx%101-1
+		var v spec.V2
+		base2(&v, bi)
+		if ti >= 0 {
+			temporal2(&v, ti)
+		}
+		s := v.String()
+		k := lib.K2E
+		if prop == "C04" {
+			if ti >= 0 {
+				return
+			}
+			k = lib.K2T
+		}
+		ref, err, _ := lib.Decode(lib.Kind(int(k)-1), s, false)
+		if err != nil || ref.IsNil() {
+			return
+		}
+		want, _ := ref.Score()
+		for how := 0; how < 3; how++ {
+			o, ok, pan := lib.Assemble(k, s, how)
+			w.Eval(1)
+			w.Count("assembled_objects")
+			if pan != nil || !ok {
+				w.Count("assembled_object_unavailable")
+				continue
+			}
+			got, _ := o.Score()
+			if got != want {
+				c := decodeCase(k, s, false)
+				c.Args = map[string]string{"assembled": hows[how]}
+				w.Violate(Violation{Monitor: prop, Check: "an object assembled from a separately decoded lower-level part scores like that part when its own group is absent", Case: c, Observed: got, Expected: want})
+			}
+		}
+	})
 }
